@@ -244,7 +244,7 @@ class C06(Monitor):
         q = list(S.prog_Q()) + list(S.prog_P1())
         if self.tier == "quick":
             out = list(S.with_modes(S.prog_Pa()))
-            return out[::5] + jumps + q
+            return out[::8] + jumps + q
         return list(S.with_modes(S.prog_Pa())) + list(S.with_modes(S.prog_Pb()))[::3] + jumps + q
 
     def cases(self):
